@@ -4,7 +4,7 @@ from ..harnesses import HEnum, HStory, timing_states
 from ..monitors import Timing
 
 RULE = ('(1) H-ENUM: every duration vector for n <= N stories over the timing kinds {StoryDuration, TextTime, MediaTime '
-        '(non-integer), TextTime+MediaTime, StoryDuration+TextTime (precedence), a duration of 0 (as StoryDuration and as '
+        '(non-integer), TextTime+MediaTime, StoryDuration+TextTime (precedence), StoryDuration listed after TextTime and MediaTime (precedence), a duration of 0 (as StoryDuration and as '
         'TextTime+MediaTime), metadata without timing, no metadata} x '
         'explicit StoryStarted/StoryEnded on every subset x roEdStart {present, empty, absent}; story durations are distinct '
         'powers of two so every prefix sum identifies its summands; (2) H-STORY closure (reorder / insert / replace / delete '
@@ -22,7 +22,7 @@ def vacuity(by_kind, by_outcome, extra, by_class):
     return probs
 
 
-TIMING = {'A': 'dur', 'AB': 'zero', 'C': 'media', 'D': 'dur+text', 'E': 'both', 'F': 'zero-text'}
+TIMING = {'A': 'all3', 'AB': 'zero', 'C': 'media', 'D': 'dur+text', 'E': 'both', 'F': 'zero-text'}
 EXPL = {'AB': 's', 'C': 'e', 'D': 'se'}
 
 
